@@ -463,6 +463,12 @@ impl<T> PooledVec<T> {
     pub fn new() -> Result<Self> {
         let element_size = std::mem::size_of::<T>();
         let pool = GLOBAL_POOLS.get_pool_for_size(element_size).clone();
+        if std::mem::align_of::<T>() > pool.config().alignment {
+            // Chunks are only aligned to the pool's alignment: elements would be misaligned
+            return Err(ZiporaError::invalid_data(
+                "element alignment exceeds the alignment of the pool chunks",
+            ));
+        }
 
         let chunk = pool.allocate()?;
         let capacity = pool.config().chunk_size / element_size;
